@@ -337,7 +337,7 @@ pub fn cmd_run_c09(tier_name: &str) -> ExitCode {
             violations = 1;
             concurrent = json!({"violation": v});
         } else {
-            println!("vsim: C09 decisions under a concurrently changing global: {} Miri executions held", m["executions"]);
+            println!("vsim: C09 decisions under a concurrently changing global: {} Miri executions held ({} decided nothing)", m["executions"], m["inconclusive_unsupported_by_miri"]);
             concurrent = json!({"executions": m["executions"], "wall_s": m["wall_s"],
                 "note": "a writer thread alternates write_global(AlwaysAnsi)/write_global(Auto) while a reader calls AutoStream::choice on a non-terminal Vec; every decision must be AlwaysAnsi (the explicit value) or Never (the environment rule), never Auto; -Zmiri-seed, preemption rates 0.01-0.5"});
         }
@@ -360,13 +360,15 @@ pub fn cmd_run_c09(tier_name: &str) -> ExitCode {
         "coverage": {
             "evaluations": b.histories + b.sweep_cells,
             "distinct_nontrivial": b.distinct as u64 + b.cells as u64,
-            "rule": "one evaluation = one history of 20-60 world operations (setenv/unsetenv of NO_COLOR, CLICOLOR_FORCE, CLICOLOR, TERM, COLORTERM, CI; ColorChoice::write_global; the clap --color flag; re-pointing fd 1/2 at a pty or a regular file) interleaved with probes (AutoStream::choice, auto(..).current_choice, new(.., Auto), every anstyle_query function, ColorChoice::global, and 'a stream keeps its mode when the world changes afterwards') over 10 stream kinds, executed in a single-threaded child process against the real code and compared with a 15-line decision function written from the property statement; plus one evaluation per cell of the stated 4x4x4x4x4x3x2 cross product, enumerated exhaustively in a seeded order as one long history. Non-trivial history = at least one probe after a world change; distinct = distinct op-list signatures of such histories plus distinct cells visited",
+            "rule": "one evaluation = one history of 20-60 world operations (setenv/unsetenv of NO_COLOR, CLICOLOR_FORCE, CLICOLOR, TERM, COLORTERM, CI; ColorChoice::write_global; the clap --color flag; re-pointing fd 1/2 at a pty or a regular file) interleaved with probes (AutoStream::choice, auto(..).current_choice, new(.., Auto), every anstyle_query function, ColorChoice::global, and 'a stream keeps its mode when the world changes afterwards') over 16 stream kinds, executed in a single-threaded child process against the real code and compared with a 15-line decision function written from the property statement; plus one evaluation per cell of the stated 4x4x4x4x4x3x2 cross product, enumerated exhaustively in a seeded order as one long history. Non-trivial history = at least one probe after a world change; distinct = distinct op-list signatures of such histories plus distinct cells visited",
             "samples": samples,
             "exhaustive": false,
             "cross_product_exhaustive": b.cells as u32 == crate::envsim::CELLS,
             "cross_product_cells_visited": b.cells,
             "cross_product_cells_total": crate::envsim::CELLS,
             "sweep_cells_enumerated": b.sweep_cells,
+            "sweep_note": "sweep_cells_enumerated = the cells of the cross product plus the dictionary pass (every variable x every dictionary word x {terminal, not a terminal}, the rest unset, global Auto)",
+            "dictionary_words_harvested_from_decision_code": crate::envsim::harvested(),
             "histories": b.histories,
             "operations": b.ops,
             "distinct_nontrivial_histories": b.distinct,
